@@ -72,6 +72,8 @@ def ptype(j):
             return "other"
         if k == ["$set"]:
             return "set"
+        if k == ["$tuple"]:
+            return "other"
         return "dict"
     return "other"
 
@@ -86,7 +88,7 @@ def ptruthy(j):
     if pt == "float":
         return float(j["$float"]) != 0.0
     if pt == "other":
-        return bool(j["$other"])
+        return bool(j["$other"]) if "$other" in j else bool(j["$tuple"])
     if pt == "set":
         return bool(j["$set"])
     return bool(j)
@@ -257,12 +259,20 @@ def violated(cls, snap, T, lenient=False):
 
 
 # ---------------------------------------------------------------------------------------------- complements
-TYPE_POOL = [None, True, False, 0, 7, -3, {"$float": "1.5"}, {"$float": "0.0"}, "", "x", " ", [], ["x"], {}, {"a": 1},
-             {"$other": True}, {"$other": False}, {"$set": []}, {"$set": ["zz"]}]
+# one value per PyVal constructor AND, systematically, every FALSY value of every type (a validator that tests truthiness where it
+# should test `is None` / the type is only visible through them), plus the strings that look like "no value"
+FALSY = [None, False, 0, {"$float": "0.0"}, {"$float": "-0.0"}, "", [], {}, {"$set": []}, {"$tuple": []}, {"$other": False}]
+TYPE_POOL = FALSY + [True, 7, -3, {"$float": "1.5"}, "x", " ", "None", "null", "0", "False", ["x"], {"a": 1}, {"$other": True}, {"$set": ["zz"]},
+                     {"$tuple": ["x"]}]
+
+# the attributes a hand-bound rule reads directly (their generic pool is tried next to the rule-specific corruptions)
+CUSTOM_FIELDS = {"label": ["label"], "ci_uid": ["uid", "id"], "ti_uid": ["uid", "id"], "ci_parent_arch": ["arches"], "disc_timestamp": ["timestamp"]}
 
 
 def rule_fields(rule):
     k = rule[0]
+    if k == "custom":
+        return list(CUSTOM_FIELDS.get(rule[1], []))
     if k in ("type", "value", "nb", "re"):
         return [rule[1]]
     if k == "guard":
